@@ -1,13 +1,17 @@
 #!/bin/sh
 # re-applies every seeded/<name>/patch.diff to a fresh worktree of /repo HEAD and re-runs the property's check against it
-cd /verif || exit 2
+# usage: [VERIF_DIR=<copy of /verif>] tools/seed_revalidate.sh [egrep pattern on the seed name]
+#   (run it in a copy — tools/agent_ws.sh — when /verif itself is in use: the runs rewrite evidence/ and lean/Pendulum/Gen/)
+V=${VERIF_DIR:-/verif}; pat=${1:-.}
+cd "$V" || exit 2
 head=$(git -C /repo log --format=%h -1)
 for d in seeded/*/; do
   name=$(basename "$d"); pid=$(echo "$name" | cut -c1-3)
+  echo "$name" | grep -Eq "$pat" || continue
   wt=/tmp/mut/reval_$name
   git -C /repo worktree remove --force "$wt" 2>/dev/null; rm -rf "$wt"
   git -C /repo worktree add -q --detach "$wt" HEAD || continue
-  if git -C "$wt" apply "/verif/$d/patch.diff" 2>/dev/null; then
+  if git -C "$wt" apply "$V/$d/patch.diff" 2>/dev/null; then
     VERIF_REPO=$wt ./check "$pid" > /tmp/mut/reval_$name.log 2>&1; k=$?
     l=$(tail -n 1 /tmp/mut/reval_$name.log)
     echo "repo=$head applies=yes check_exit=$k $l" > "$d/revalidated.txt"
@@ -17,4 +21,4 @@ for d in seeded/*/; do
   echo "$name: $(cat $d/revalidated.txt | cut -c1-110)"
   git -C /repo worktree remove --force "$wt"; rm -f /tmp/mut/reval_$name.log
 done
-rm -rf /verif/evidence/replays
+rm -rf "$V/evidence/replays"
